@@ -608,8 +608,8 @@ const EXPECTED: &[(&str, &str)] = &[
     ("budget_restart_after_skipped_document", "stream=[Err(\"invalid i32 at line 1, column 17\"), Ok(Pair { a: [1, 2, 3], b: [4] }), Ok(Pair { a: [1], b: [] })] reports=[\"breached=None events=11 aliases=0 anchors=0 documents=0 nodes=6 depth=2 bytes=3 merges=0\"]"),
     ("budget_documents", "batch=Err(\"budget breached: Documents { documents: 3 } at line 4, column 1\") [] | stream=[Ok(Doc { id: 1 }), Ok(Doc { id: 2 }), Ok(Doc { id: 3 })] [\"breached=None events=6 aliases=0 anchors=0 documents=0 nodes=3 depth=1 bytes=3 merges=0\"] | single=Err(\"multiple YAML documents detected; use from_multiple or from_multiple_with_options at line 3, column 1\") [] | single_reader=Err(\"multiple YAML documents detected; use read or read_with_options to obtain the iterator at line 3, column 1\") []"),
     ("budget_reports_clean_runs", "single=Ok(Doc { id: 1 }) [\"breached=None events=8 aliases=0 anchors=0 documents=1 nodes=3 depth=1 bytes=3 merges=0\"] | batch=Ok([Doc { id: 1 }, Doc { id: 2 }]) [\"breached=None events=14 aliases=0 anchors=0 documents=2 nodes=6 depth=1 bytes=6 merges=0\"] | stream=[Ok(Doc { id: 1 }), Err(\"invalid i32 at line 3, column 5\")] [\"breached=None events=3 aliases=0 anchors=0 documents=0 nodes=1 depth=0 bytes=1 merges=0\"]"),
-    ("reader_byte_cap", "stream=[Err(\"IO error: input size limit of 12 bytes exceeded\")] | type_error_then_cap=[Err(\"IO error: input size limit of 12 bytes exceeded\")] | single_reader=Err(\"IO error: input size limit of 12 bytes exceeded\")"),
-    ("io_errors", "docs=[Err(\"IO error: disk on fire\")] | null_tail=[Err(\"IO error: disk on fire\")] | while_skipping=[Ok(Doc { id: 1 }), Err(\"IO error: disk on fire\")] | at_once=[Err(\"IO error: disk on fire\")] | single=Err(\"IO error: disk on fire\")"),
+    ("reader_byte_cap", "stream=[Err(\"IO error: input size limit of 12 bytes exceeded\"), Err(\"IO error: input size limit of 12 bytes exceeded\")] | type_error_then_cap=[Err(\"IO error: input size limit of 12 bytes exceeded\"), Err(\"IO error: input size limit of 12 bytes exceeded\")] | single_reader=Err(\"IO error: input size limit of 12 bytes exceeded\")"),
+    ("io_errors", "docs=[Err(\"IO error: disk on fire\"), Err(\"IO error: disk on fire\")] | null_tail=[Err(\"IO error: disk on fire\"), Err(\"IO error: disk on fire\")] | while_skipping=[Ok(Doc { id: 1 }), Err(\"IO error: disk on fire\")] | at_once=[Err(\"IO error: disk on fire\")] | single=Err(\"IO error: disk on fire\")"),
     ("mixed_stream", "stream=[Ok(Doc { id: 1 }), Err(\"invalid i32 at line 7, column 5\"), Err(\"unexpected event: expected mapping start at line 10, column 1\"), Ok(Doc { id: 5 }), Ok(Doc { id: 7 }), Err(\"alias references unknown anchor at line 19, column 5\"), Ok(Doc { id: 9 })] | batch=Err(\"error: line 7 column 5: invalid i32\\n --> <input>:7:5\\n  |\\n5 |\\n6 | ---\\n7 | id: two\\n  |     ^ invalid i32\\n8 | ...\\n9 | ---\\n  |\") | json=Err(\"error: line 19 column 5: alias references unknown anchor\\n  --> <input>:19:5\\n   |\\n17 | id: &n 7\\n18 | ---\\n19 | id: *n\\n   |     ^ alias references unknown anchor\\n20 | ---\\n21 | id: 9\\n   |\")"),
     ("round_trip_multiple", "text=\"k:\\n  - 1\\n  - 2\\n---\\n{}\\n---\\nz: []\\n\" | batch=Ok([{\"k\": [1, 2]}, {}, {\"z\": []}]) | stream=[Ok({\"k\": [1, 2]}), Ok({}), Ok({\"z\": []})]"),
 //EXPECTED-END
